@@ -102,6 +102,8 @@ func verifFunctions() map[string]schema.FunctionSignature {
 	return map[string]schema.FunctionSignature{
 		"f0": {ReturnType: cty.String, Description: "no params"},
 		"f1": {ReturnType: cty.String, Params: []function.Parameter{{Name: "a", Type: cty.String}}},
+		"fobj": {ReturnType: cty.Object(map[string]cty.Type{"a": cty.String}), Params: []function.Parameter{{Name: "a", Type: cty.String}}},
+		"fsb":  {ReturnType: cty.Bool, Params: []function.Parameter{{Name: "s", Type: cty.String}, {Name: "b", Type: cty.Bool}}},
 		"f2": {ReturnType: cty.Number, Params: []function.Parameter{{Name: "a", Type: cty.Number}, {Name: "b", Type: cty.Number}}},
 		"fv": {ReturnType: cty.String, Params: []function.Parameter{{Name: "a", Type: cty.String}}, VarParam: &function.Parameter{Name: "rest", Type: cty.String}},
 		"provider::ns::fn": {ReturnType: cty.String, Params: []function.Parameter{{Name: "a", Type: cty.String}}},
@@ -223,6 +225,15 @@ func verifModDepEntries() []verifDepEntry {
 	}
 }
 
+func verifFlaggedDepEntries() []verifDepEntry {
+	return []verifDepEntry{
+		{schema.DependencyKeys{Attributes: []schema.AttributeDependent{{Name: "on", Expr: schema.ExpressionValue{Static: cty.True}}}}, &schema.BodySchema{
+			Attributes: map[string]*schema.AttributeSchema{"extra": {Constraint: schema.LiteralType{Type: cty.String}, IsOptional: true}},
+			DocsLink:   &schema.DocsLink{URL: "https://example.com/flagged/on"},
+		}},
+	}
+}
+
 // verifDepEntriesOf: the dependent-body entries of a top-level block type of SB (nil: not listed).
 func verifDepEntriesOf(blockType string) []verifDepEntry {
 	switch blockType {
@@ -234,6 +245,8 @@ func verifDepEntriesOf(blockType string) []verifDepEntry {
 		return verifTwoDepEntries()
 	case "mod":
 		return verifModDepEntries()
+	case "flagged":
+		return verifFlaggedDepEntries()
 	}
 	return nil
 }
@@ -289,8 +302,14 @@ func verifSchemaSB() *schema.BodySchema {
 			// two levels of dependent bodies
 			"be": {
 				Labels:        []*schema.LabelSchema{{Name: "type", IsDepKey: true}},
-				Body:          &schema.BodySchema{Attributes: map[string]*schema.AttributeSchema{"note": {Constraint: str, IsOptional: true}}},
+				Body: &schema.BodySchema{Attributes: map[string]*schema.AttributeSchema{"note": {Constraint: str, IsOptional: true}},
+					Blocks: map[string]*schema.BlockSchema{"lifecycle": {Body: &schema.BodySchema{Attributes: map[string]*schema.AttributeSchema{"keep": {Constraint: schema.LiteralType{Type: cty.Bool}, IsOptional: true}}}}}},
 				DependentBody: verifDepMap(verifBeDepEntries()),
+			},
+			// a key attribute with a boolean value
+			"flagged": {
+				Body:          &schema.BodySchema{Attributes: map[string]*schema.AttributeSchema{"on": {Constraint: schema.LiteralType{Type: cty.Bool}, IsOptional: true, IsDepKey: true}}},
+				DependentBody: verifDepMap(verifFlaggedDepEntries()),
 			},
 			// two attribute keys, one with a default value
 			"two": {
@@ -542,6 +561,22 @@ func verifSeedList() []verifSeed {
 		{"opt-member", "opt \"o\" {\n  x = var.foo\n  member {\n    who = var.foo\n  }\n}\n", 2},
 		{"alst-for-multiline", "alst = [\n  for x in var.foo : x\n]\n", 0},
 		{"amap-for-multiline", "amap = {\n  for k, v in var.foo : k => v\n}\n", 0},
+		{"aobj-func-partial", "aobj = f\n", 0},
+		{"empty-aobj", "aobj = \n", 0},
+		{"call-mixed-before-arg", "abool = fsb( \"x\",  true )\n", 0},
+		{"call-mixed-first", "abool = fsb(  \"x\", true )\n", 0},
+		{"call-in-template", "astr = fv( \"p-${f1( var.foo )}\", \"b\" )\n", 0},
+		{"anum-paren-lit", "anum = ( 42 )\n", 0},
+		{"alst-paren", "alst = ( [ \"a\" ] )\n", 0},
+		{"amap-paren-key-ref", "amap = { (var.foo) = var.foo }\n", 0},
+		{"cmap-paren-key-ref", "cmap = { (var.foo) = \"v\" }\n", 0},
+		{"res-count-twice", "res \"aws\" \"a\" {\n  count = 2\n  size = count.index\n}\nres \"aws\" \"b\" {\n  size = count.index\n}\n", 2},
+		{"be-gcs-lifecycle", "be \"gcs\" {\n  lifecycle {\n    bogus = 1\n  }\n}\n", 2},
+		{"be-s3-lifecycle", "be \"s3\" {\n  lifecycle {\n    bogus = 1\n    keep = true\n  }\n}\n", 2},
+		{"be-partial-lifecycle", "be \"s3\" {\n  backend = \"other\"\n  zzz = 1\n  lifecycle {\n    bogus = 1\n  }\n}\n", 2},
+		{"flagged-on", "flagged {\n  on = true\n  extra = \"x\"\n}\n", 2},
+		{"flagged-off", "flagged {\n  on = false\n  extra = \"x\"\n}\n", 2},
+		{"data-lst-separated", "data \"d\" {\n  lst {\n    v = \"a\"\n  }\n  id = \"i\"\n  lst {\n    v = \"b\"\n  }\n  lst {\n    v = \"c\"\n  }\n}\n", 2},
 		{"mod-dep", "mod \"m\" {\n  source = \"./m\"\n  input = \"i\"\n}\n", 2},
 		{"mod-nodep", "mod \"m\" {\n  source = \"./other\"\n  input = \"i\"\n}\n", 2},
 		{"variable", "variable \"v\" {\n  type = list(string)\n  default = [ \"a\" ]\n}\n", 2},
